@@ -1,6 +1,6 @@
 (* Executor ops for C03: af.hist (a whole edit history with all observations), af.ser (the Spec
    serialiser, used by the generator to build well-formed starts). *)
-From Gots Require Import Base.Prelude Exec.ExecBase Model.Pcr Model.AF Model.AFfn Spec.AFSpec.
+From Gots Require Import Base.Prelude Exec.ExecBase Model.Pcr Model.AF Model.AFfn Spec.AFSpec Spec.AFParse.
 
 Definition vz (z : Z) : val := VI z.
 Definition vunit (_ : unit) : val := VL [].
@@ -86,4 +86,15 @@ Definition op_ser (a : list val) : val :=
     | Some l => VL [VB (hdr ++ ser_laf l ++ pay); vbool (fitsb l)]
     | None => vbad end
   | _ => vbad end.
-Definition ops : list op := [ ("af.hist"%string, op_hist); ("af.ser"%string, op_ser) ].
+(* af.wf <packet> [ops] : 1 when the case lies inside the hypotheses of C03_history (Spec/AFParse.v, sound by
+   Proofs/AFParseSound.v), 0 otherwise *)
+Fixpoint dec_ops (vs : list val) : option (list AF.op) :=
+  match vs with
+  | [] => Some []
+  | v :: t => match dec_op v, dec_ops t with Some o, Some r => Some (o :: r) | _, _ => None end
+  end.
+Definition op_wf (a : list val) : val :=
+  match a with
+  | [VB p; VL os] => match dec_ops os with Some l => vbool (in_domain p l) | None => vbad end
+  | _ => vbad end.
+Definition ops : list op := [ ("af.hist"%string, op_hist); ("af.ser"%string, op_ser); ("af.wf"%string, op_wf) ].
